@@ -154,3 +154,6 @@ def check(ctx):
     r_equations(ctx)
     r_stack(ctx)
     r_call_site(ctx)
+    # the loop is unrolled for the bit width the counter type reports
+    from . import c07
+    c07.r_uint_tables(ctx, only={'bit_width', 'from_bit_width'})
